@@ -92,6 +92,6 @@ def determinism(seed, n=None, nfresh=None):
             print("   MISMATCH", m)
         bad += len(mism)
     print("determinism self-test: %d mismatches, %.0fs" % (bad, time.time() - t0))
-    with open(os.path.join(VERIF, "evidence", "selftest-determinism.json"), "w") as fh:
+    with open(os.path.join(VERIF, "selftests", "selftest-determinism.json"), "w") as fh:
         json.dump({"seed": seed, "summary": summary, "wall_s": time.time() - t0}, fh, indent=1)
     return 2 if bad else 0
